@@ -26,6 +26,9 @@ vec_basic generate_fdiff_weights_vector(const vec_basic &grid,
     // Generation of Finite Difference Formulas on Arbitrarily Spaced Grids
     //     Bengt Fornberg, Mathematics of compuation, 51, 184, 1988, 699-706
     //
+    if (grid.empty())
+        throw SymEngineException(
+            "generate_fdiff_weights_vector: the grid must not be empty");
     const unsigned len_g = numeric_cast<unsigned>(grid.size());
     const unsigned len_w = len_g * (max_deriv + 1);
     RCP<const Basic> c1, c4, c5;
